@@ -325,7 +325,12 @@ package errbase
 // foreign formatting methods receive the state as a Printer / fmt.State: they can only reach it
 // through Print/Printf/Detail/Write, which never touch the entry list
 
+// treeSize(e): number of nodes of the visible error tree (the node, its single cause's subtree,
+// every multi-cause branch's subtree) - the number of entries %+v shows
 //@ spec func treeSize(e error) int
+//@ spec func sizeTo(es []error, n int) int
+//@ unfold sizeTo(es, n) = n <= 0 ? 0 : sizeTo(es, n - 1) + treeSize(es[n - 1])
+//@ unfold treeSize(e) = 1 + (cause1(e) != nil ? treeSize(cause1(e)) : 0) + sizeTo(causes(e), len(causes(e)))
 
 //@ global invariant detailsep_len: len(detailSep) == 5
 
@@ -366,10 +371,15 @@ package errbase
 //@   requires err != nil
 //@   assigns heap state.entries, heap state.buf, heap state.headBuf, heap state.lastStack, heap state.needNewline, heap state.needSpace, heap state.multiLine, heap state.notEmpty, heap state.hasDetail, heap state.wantDetail
 //@   ensures result >= 1 && len(self.entries) == old(len(self.entries)) + result
+//@   groundunfold sizeTo treeSize
+//@   requires[C09] forall k int :: 0 <= k && k < len(causes(err)) ==> causes(err)[k] != nil
+//@   ensures[C09] result == treeSize(err)
+//@   ensures[C09] self.entries[len(self.entries) - 1].err == err
 //@   requires[C06] wfEntries(self.entries)
 //@   ensures[C06] wfEntries(self.entries)
 //@   loop 1: invariant numChildren >= 0 && len(self.entries) == old(len(self.entries)) + numChildren
 //@           invariant[C06] wfEntries(self.entries)
+//@           invariant[C09] numChildren == (cause1(err) != nil ? treeSize(cause1(err)) : 0) + sizeTo(causes(err), $n)
 
 
 // ======================================================================================
